@@ -1,3 +1,13 @@
+#[cfg(feature = "verif_hooks")]
+use crate::verif_hooks::{Mutex, MutexGuard};
+#[cfg(feature = "verif_hooks")]
+use std::{
+  cell::{Ref, RefCell, RefMut},
+  ops::{Deref, DerefMut},
+  rc::Rc,
+  sync::Arc,
+};
+#[cfg(not(feature = "verif_hooks"))]
 use std::{
   cell::{Ref, RefCell, RefMut},
   ops::{Deref, DerefMut},
